@@ -284,4 +284,19 @@ PROPS = {
         "trusted_base": CTRL_TB,
         "assumptions": ["as C03"],
     },
+    "C13": {
+        "engines": [
+            {"go": "lister", "bin": "kconc", "driver": "lister", "actions": ("scenario", "lcfg", "llist", "lconsume", "end"),
+             "classify": ctrl_cls(("C13", "C12")), "nontrivial": lambda l: l.startswith("(lstop"), "resets": ["scenario"]},
+            ctrl_engine("", ("C13",), 300, 4000),
+        ],
+        "rule": "lister engine: the real lister+ticker alone in virtual time on the grid period {100ms, 1s, 1m} x latency/period "
+                "{0, .25, .5, .95, 1, 1.5, 3, 5} x consumption-delay/period {0, .1, .5, 1, 2} (quick: a third of it, thorough: all 120 points), "
+                "stopped by channel or context at a random phase of the cycle after ~12 cycles; the time-stamped List calls and "
+                "consumptions are replayed through the Lean ticker model (every label must be enabled: one list at a time, next list "
+                "within [period-fuzz, period+fuzz] of the consumption, relisting up to the stop) and the lister must be done 50ms "
+                "after the stop. Plus the ctrl engine's list timing checks. Non-trivial: every grid point.",
+        "trusted_base": CTRL_TB + ["ticker model KcacheModel/Tick.lean written by hand from ticker.go / lister.go; Go timer semantics modelled (armed / fired-unread / idle)"],
+        "assumptions": ["client List returns once its context is cancelled", "virtual time (testing/synctest); the 1.23+ timer semantics of the newer toolchain"],
+    },
 }
